@@ -443,6 +443,13 @@ func RunSigning(
 		wg.Add(1)
 		go func(f int) {
 			defer wg.Done()
+			if f < 1 || f > len(finalSeats) || shares[f] == nil {
+				// no key share is stored under this final index: the member cannot sign
+				mu.Lock()
+				out.Errs[f] = fmt.Errorf("no key share stored for final member index %d", f)
+				mu.Unlock()
+				return
+			}
 			channel := network.ChannelFor(finalSeats[f-1])
 			signing.RegisterUnmarshallers(channel)
 			res, err := signing.Execute(
